@@ -142,6 +142,10 @@ structure C04.AgreeExcept (D : Nat → String → Prop) (s t : St) : Prop where
   dirty : ∀ i n, D i n → isConstant n = false ∧
     ∃ ft v, t.frames[i]? = some ft ∧ lookupStore ft.store n = some v ∧ notRef v = true ∧
       (isFuncObj v = false ∨ ft.depth ≠ 0)
+  /-- in `s` too a binding of `D` of a depth-0 frame does not hold a function (whether the top level frame binds a name
+  to a function decides the local-function flag of the frames that shadow it) -/
+  dirtyS : ∀ i n, D i n → ∀ fs ft w, s.frames[i]? = some fs → t.frames[i]? = some ft → lookupStore fs.store n = some w →
+    (isFuncObj w = false ∨ ft.depth ≠ 0)
   /-- no value bound in `t` (outside `D`) contains a reference to a binding of `D` -/
   untracked : ∀ i ft n v, t.frames[i]? = some ft → ¬ D i n → lookupStore ft.store n = some v → cleanD D v
   /-- parents and references point to smaller frame indices (true of every reachable state) -/
@@ -164,7 +168,7 @@ theorem C04.agree_stRq {D : Nat → String → Prop} {s t : St} (h : C04.AgreeEx
   obtain ⟨fs, hfs, h1, h2, h3, h4, h6, h5⟩ := h.frames i ft hi
   have hilt := lt_of_frame hi
   refine ⟨fs, by rw [sh_id hd]; exact hfs, ?_⟩
-  refine ⟨?_, h2, h3, ?_, ?_, ?_, ?_, ?_, ?_, h6⟩
+  refine ⟨?_, h2, h3, ?_, ?_, ?_, ?_, ?_, ?_, h6, fun n hn w hw => h.dirtyS i n hn fs ft w hfs hi hw⟩
   · rw [h1]; cases ft.outer with
     | none => rfl
     | some o => simp only [Option.map]; rw [sh_id hd]
@@ -222,7 +226,7 @@ theorem det_agree : C04.AgreeExcept detD (detState 7) (detState 5) := by
     cases i with
     | zero => exact ⟨rfl, by simpa [detState] using h.symm⟩
     | succ i => simp [detState] at h
-  refine ⟨rfl, rfl, rfl, rfl, rfl, rfl, rfl, rfl, rfl, by decide, ?_, ?_, ?_, ?_⟩
+  refine ⟨rfl, rfl, rfl, rfl, rfl, rfl, rfl, rfl, rfl, by decide, ?_, ?_, ?_, ?_, ?_⟩
   · intro i ft h
     obtain ⟨rfl, rfl⟩ := hframe i ft h
     refine ⟨{ store := [("fib", .func fibVal), ("x", .int 7)] }, rfl, rfl, rfl, rfl, rfl, rfl, ?_⟩
@@ -232,6 +236,12 @@ theorem det_agree : C04.AgreeExcept detD (detState 7) (detState 5) := by
     simp only [lookupStore, hx', Bool.false_eq_true, if_false]
   · rintro i n ⟨rfl, rfl⟩
     exact ⟨by decide, _, .int 5, rfl, rfl, rfl, Or.inl rfl⟩
+  · rintro i n ⟨rfl, rfl⟩ fs ft w hfs _ hw
+    have hfs' : fs = { store := [("fib", .func fibVal), ("x", .int 7)] } := by simpa [detState] using hfs.symm
+    subst hfs'
+    have : w = .int 7 := by simpa [lookupStore] using hw.symm
+    subst this
+    exact Or.inl rfl
   · intro i ft n v h hn hl
     obtain ⟨rfl, rfl⟩ := hframe i ft h
     have hx : ¬ n = "x" := fun hh => hn ⟨rfl, hh⟩
